@@ -1,1 +1,99 @@
-// harnesses for numeric
+// Numeric literal parsers against an arithmetic specification (C08, C16). Compiled inside `lexer::numeric`.
+// The float path (lexical's Eisel-Lemire / big-integer code) is outside CBMC's reach and excluded.
+
+fn ascii_str<const N: usize>(buf: &[u8; N], len: usize) -> &str {
+    unsafe { std::str::from_utf8_unchecked(&buf[..len]) }
+}
+
+macro_rules! num_int_harness {
+    ($n:literal, $uw:literal, $name:ident) => {
+        /// Integer mode: the token is the digit prefix, the payload its value.
+        #[kani::proof]
+        #[kani::unwind($uw)]
+        fn $name() {
+            let buf: [u8; $n] = kani::any();
+            let len: usize = kani::any();
+            kani::assume(len <= $n);
+            let mut i = 0;
+            while i < $n {
+                kani::assume(buf[i] < 0x80);
+                i += 1;
+            }
+            let s = ascii_str(&buf, len);
+            let r = try_parse_decimal(s, true, false);
+            // reference
+            let mut l = 0usize;
+            let mut val = 0u64;
+            let mut i = 0;
+            while i < $n {
+                if i < len && l == i && buf[i].is_ascii_digit() {
+                    val = val * 10 + (buf[i] - b'0') as u64;
+                    l += 1;
+                }
+                i += 1;
+            }
+            match r {
+                None => assert!(l == 0, "C08: a digit prefix is not recognised as an integer literal"),
+                Some(res) => {
+                    assert!(l > 0 && res.length.get() == l, "C08: integer literal does not span exactly its digits");
+                    assert!(res.error.is_none() && res.token.0 == TokenType::IntegerLiteral, "C08: integer notation gives an integer token without error");
+                    assert!(matches!(res.token.1, Payload::Integer(v) if v == val), "C08: integer payload differs from the value written");
+                }
+            }
+            kani::cover!(l == $n && val > 99);
+            kani::cover!(l > 0 && l < len);
+        }
+    };
+}
+num_int_harness!(3, 5, num_int_spec_n3);
+num_int_harness!(5, 7, num_int_spec_n5);
+
+macro_rules! num_hex_harness {
+    ($n:literal, $uw:literal, $name:ident) => {
+        /// Hex mode: maximal hex-digit prefix, value base 16; identical for every letter case (C16).
+        #[kani::proof]
+        #[kani::unwind($uw)]
+        fn $name() {
+            let buf: [u8; $n] = kani::any();
+            let flipm: [bool; $n] = kani::any();
+            let len: usize = kani::any();
+            kani::assume(len <= $n);
+            let mut buf2 = buf;
+            let mut i = 0;
+            while i < $n {
+                kani::assume(buf[i] < 0x80);
+                if flipm[i] && buf[i].is_ascii_alphabetic() {
+                    buf2[i] = buf[i] ^ 0x20;
+                }
+                i += 1;
+            }
+            kani::assume(len >= 1 && buf[0].is_ascii_digit());
+            let r = try_parse_hex_integer(ascii_str(&buf, len));
+            let r2 = try_parse_hex_integer(ascii_str(&buf2, len));
+            let mut l = 0usize;
+            let mut val = 0u64;
+            let mut i = 0;
+            while i < $n {
+                if i < len && l == i && buf[i].is_ascii_hexdigit() {
+                    val = val * 16 + (buf[i] as char).to_digit(16).unwrap() as u64;
+                    l += 1;
+                }
+                i += 1;
+            }
+            match (&r, &r2) {
+                (Some(a), Some(b)) => {
+                    assert!(a.length == b.length && a.token.0 == b.token.0 && a.error == b.error, "C16: hex literal span/type depends on letter case");
+                    assert!(matches!((a.token.1, b.token.1), (Payload::Integer(x), Payload::Integer(y)) if x == y), "C16: hex literal value depends on letter case");
+                    assert!(a.length.get() == l && a.error.is_none() && a.token.0 == TokenType::IntegerLiteral, "C08: hex literal spans its hex digits");
+                    assert!(matches!(a.token.1, Payload::Integer(v) if v == val), "C08: hex payload differs from the value written");
+                }
+                (None, None) => assert!(l == 0, "C08: hex digits not recognised"),
+                _ => assert!(false, "C16: hex literal recognition depends on letter case"),
+            }
+            kani::cover!(l == $n && val > 0xff);
+            kani::cover!(l >= 2 && flipm[1] && buf[1].is_ascii_alphabetic());
+        }
+    };
+}
+num_hex_harness!(3, 5, num_hex_spec_n3);
+num_hex_harness!(4, 6, num_hex_spec_n4);
